@@ -232,6 +232,41 @@ pub fn run() {
     }
   });
 
+  // B2. a date tested against intervals of dates of every bracket kind, the date itself being one of the end points
+  (0..dvals.len()).into_par_iter().for_each(|i| {
+    let forms: Vec<(&str, bool, bool, bool)> = vec![
+      // (text, a is the upper end, lower end closed, upper end closed)
+      ("a in [b..a]", true, true, true),
+      ("a in (b..a]", true, false, true),
+      ("a in [b..a)", true, true, false),
+      ("a in (b..a)", true, false, false),
+      ("a in [a..b]", false, true, true),
+      ("a in (a..b]", false, false, true),
+      ("a in [a..b)", false, true, false),
+      ("a in (a..b)", false, false, false),
+      ("a in ]b..a]", true, false, true),
+      ("a in [a..b[", false, true, false),
+    ];
+    let evs: Vec<Evaluator> = forms.iter().map(|(t, ..)| prep(t)).collect();
+    let (ra, va) = &dvals[i];
+    for (rb, vb) in &dvals {
+      cnt.cases.fetch_add(1, Ordering::Relaxed);
+      let s = scope_abc(&[("a", va.clone()), ("b", vb.clone())]);
+      let o = (rb.year, rb.month, rb.day).cmp(&(ra.year, ra.month, ra.day)); // b against a
+      for (k, (text, a_is_upper, lc, uc)) in forms.iter().enumerate() {
+        let exp = if *a_is_upper {
+          // lower end b, upper end a: b <(=) a and a <(=) a
+          (if *lc { o != std::cmp::Ordering::Greater } else { o == std::cmp::Ordering::Less }) && *uc
+        } else {
+          // lower end a, upper end b
+          *lc && (if *uc { o != std::cmp::Ordering::Less } else { o == std::cmp::Ordering::Greater })
+        };
+        let what = text.replace('a', &format!("@\"{}\"", print_date(ra))).replace('b', &format!("@\"{}\"", print_date(rb)));
+        expect(&run, &cnt, &format!("date-in-interval:{}", &text[5..]), &what, &evs[k](&s), &exp.to_string(), json!({"engine":"c15","text":what}));
+      }
+    }
+  });
+
   // D. date-times: comparison and subtraction by the instant on the UTC time line
   let mut offsets: Vec<i64> = vec![];
   let step = if thorough { 15 } else { 60 };
